@@ -14,6 +14,7 @@ import SteelVerif.C02.LemmasHist
 import SteelVerif.C02.LemmasTier
 import SteelVerif.C02.LemmasFold
 import SteelVerif.C02.PropsCore
+import SteelVerif.C02.JitShadowProps
 namespace SteelVerif.C02
 open SteelVerif.C01
 
@@ -330,3 +331,19 @@ NOT carried by any theorem (covered only by the per-program differential run of 
 -/
 
 end SteelVerif.C02
+
+/-! ## (e) The JIT's shadow stack of pending operands (namespace `SteelVerif.C02J`, files JitShadow*.lean)
+
+`tier_transparent_partial` assumes "a native instruction does what the interpreter's does".  For the part of the
+native tier the open miscompilation findings concern — operands kept on a compile-time stack as references to
+argument slots / SSA values / "already pushed" flags and materialised late — that assumption is replaced by a
+model of the mechanism and a theorem: `C02J.shadow_transparent` (native code = interpreter on slots and operand
+stack for every operand program that passes two static guards: no write to a slot with a pending reference; both
+branches of a conditional leave every pending entry in the same state), `C02J.shapes_static` (the guards are
+about compile-time shapes only), `C02J.shadow_transparent_false` (without the guards the statement is false) and
+the decided witnesses `k02g_witness`, `k02i_witness`, `k02n_else_spills_witness`, `lp_then_spills_witness`,
+`both_move_not_compiled`: the operand programs of findings K02g, K02i, K02n and of the `lp` loop, on which the
+model of the REAL code generator (which has neither guard) and the interpreter give the values observed on the
+real engine.  `read_is_step`/`move_is_step`/`setl_is_step` tie the interpreter side to `C01C.step`.
+Not covered: `let` scopes (BEGINSCOPE spills), nested conditionals, errors/deoptimisation, the Cranelift
+emission itself, every other op code family (K02e, K02j, K02m stay per-program facts of the differential run). -/
